@@ -14,13 +14,23 @@ class FakeFile:
         self.mode = mode
         self.buffering = buffering
         self.ino = ino  # the inode the path had when this handle was opened
-        self.close_calls = 0
+        self.close_calls = 0  # releases of the OS handle (close() on a closed file is a no-op, as for io objects)
+        self.closed = False
 
     def close(self):
+        if self.closed:
+            self.world.trace.append(("close-again", self))
+            return
+        self.closed = True  # the descriptor is released even when close() reports an error
         self.close_calls += 1
         self.world.trace.append(("close", self))
         if self.world.close_fails(self):
             raise OSError("close failed")
+
+    def fileno(self):
+        if self.closed:
+            raise ValueError("I/O operation on closed file")
+        return 1000 + self.world.handles.index(self)
 
     def __repr__(self):
         return "<handle %s opened on inode %r>" % (self.path, self.ino)
@@ -36,6 +46,7 @@ class World:
         self.status = 0  # status byte the target reports for the next command
         self.sense = None  # sense bytes it sends with CHECK CONDITION
         self.close_failure = False  # bool | symbolic: closing a handle raises
+        self.open_failure = False  # bool | symbolic: open() of an existing node raises (EACCES, EBUSY, ...)
         self.havoc = None  # callable(datain) -> None: the device writes into the data-in buffer
         self.handles = []
         self.all_present = False  # every path names an existing node (used where the file system is not the subject)
@@ -51,6 +62,9 @@ class World:
         if not self.present.get(path, self.all_present):
             self.trace.append(("open-failed", path, mode, buffering))
             raise FileNotFoundError(2, "No such file or directory", path)
+        if bool(self.open_failure):
+            self.trace.append(("open-failed", path, mode, buffering))
+            raise PermissionError(13, "Permission denied", path)
         h = FakeFile(self, path, mode, buffering, self.inode.get(path, 0))
         self.handles.append(h)
         self.trace.append(("open", path, mode, buffering, h))
@@ -69,6 +83,10 @@ class World:
 
     # ---- SG_IO
     def sgio_execute(self, file, cdb, dataout, datain):
+        if getattr(file, "closed", False):
+            # assumed contract of the binding: it takes file.fileno(), which refuses a closed file; nothing is sent
+            self.trace.append(("sgio.execute-on-closed-file", file))
+            raise ValueError("I/O operation on closed file")
         cur = self.inode.get(getattr(file, "path", None))
         self.trace.append(("sgio.execute", file, cdb, dataout, datain, cur))
         from . import sgio
